@@ -37,22 +37,42 @@ def run(pid, tier, seed):
             raise vlib.ToolError("specification %s violates %s: fix the model" % (m["cfg"], m["violated"]))
         covered |= {a for a, c in m["coverage"].items() if c > 0}
     w = vlib.workdir("lifecycle_" + pid)
-    trace = os.path.join(w, "batch.ndjson")
-    summ = vlib.harness(["lifecycle", "--out", trace, "--tier", tier, "--seed", seed])
-    if summ.get("bad_runs"):
-        log("[V] %d runs did not reach quiescence within the step budget" % summ["bad_runs"])
-    vb = vlib.validate_batch("Trace_Lifecycle", "Trace_Lifecycle.cfg", trace, "lifecycle_" + pid)
-    for viol in vb["violations"]:
-        meta = json.loads(viol["run"][0]).get("meta", {})
-        ev = viol.get("lenient_event") or viol.get("strict_event") or "{}"
-        try:
-            j = json.loads(ev)
-            lab = "%s(%s)" % (j.get("a", "?"), j.get("k", j.get("x", "")))
-        except Exception:
-            lab = "?"
-        sig = "lifecycle first-unexplained=%s gen=%s" % (lab, json.dumps(meta.get("gen")))
-        v.violation(sig, {"family": "lifecycle", "meta": meta, "trace": [json.loads(x) for x in viol["run"]],
-                          "first_unexplained": viol.get("lenient_event_index"), "event": ev})
+    # the same scenario families on the default build and (C01: always; others: thorough tier) on the
+    # async-trait build of ractor, which routes every callback through boxed dyn futures
+    builds = [("", seed)]
+    if pid == "C01" or tier == "thorough":
+        builds.append(("asynctrait", int(seed) + 1000))
+    vb = None
+    summ = None
+    for feat, sd in builds:
+        trace = os.path.join(w, "batch_%s.ndjson" % (feat or "default"))
+        sm = vlib.harness(["lifecycle", "--out", trace, "--tier", tier if not feat else "quick", "--seed", sd], features=feat)
+        if sm.get("bad_runs"):
+            log("[V] %s build: %d runs did not reach quiescence within the step budget" % (feat or "default", sm["bad_runs"]))
+        one = vlib.validate_batch("Trace_Lifecycle", "Trace_Lifecycle.cfg", trace, "lifecycle_%s_%s" % (pid, feat or "default"))
+        for viol in one["violations"]:
+            meta = json.loads(viol["run"][0]).get("meta", {})
+            ev = viol.get("lenient_event") or viol.get("strict_event") or "{}"
+            try:
+                j = json.loads(ev)
+                lab = "%s(%s)" % (j.get("a", "?"), j.get("k", j.get("x", "")))
+            except Exception:
+                lab = "?"
+            sig = "lifecycle%s first-unexplained=%s gen=%s" % ("/" + feat if feat else "", lab, json.dumps(meta.get("gen")))
+            v.violation(sig, {"family": "lifecycle", "build": feat or "default", "meta": meta,
+                              "trace": [json.loads(x) for x in viol["run"]],
+                              "first_unexplained": viol.get("lenient_event_index"), "event": ev})
+        if vb is None:
+            vb, summ = one, sm
+        else:
+            for k in ("runs", "events", "strict_accepted", "lenient_accepted", "tlc_states", "unvalidated"):
+                vb[k] += one[k]
+            vb["divergences"] += one["divergences"]
+            vb["violations"] += one["violations"]
+            for k, n in one["deviations"].items():
+                vb["deviations"][k] = vb["deviations"].get(k, 0) + n
+            summ["runs"] += sm["runs"]
+            summ["distinct_nontrivial"] += sm["distinct_nontrivial"]
     for name, n in vb["deviations"].items():
         if DEV_OWNER.get(name) == pid:
             v.deviation(name, n)
@@ -77,6 +97,7 @@ def run(pid, tier, seed):
         "tlc_trace_states": vb["tlc_states"],
         "mc_configs": [{"cfg": m["cfg"], "states": m["states"], "transitions": m["transitions"], "wall_s": m["wall_s"]} for m in mcs],
         "mc_actions_covered": sorted(covered),
+        "builds": [f or "default" for f, _ in builds],
         "exhaustive": False,
     }
     vlib.write_evidence(pid, tier, seed, cov, ASSUME, time.time() - t0, len(v.violations))
